@@ -2,6 +2,7 @@ import Apko.Model.Confine
 import Apko.Generated.Confine
 import Apko.Proofs.Lemmas.ConfinePath
 import Apko.Proofs.Lemmas.ConfineEtag
+import Apko.Proofs.Lemmas.ConfineKeys
 import Apko.Generated.Cache
 /-!
 # C18 — nothing is written outside the designated roots
@@ -578,6 +579,85 @@ example : cacheTransportWrites (T "/t/cache") (T "/os/x86_64/APKINDEX.tar.gz") (
     = some [T "/t/cache/https%3A%2F%2Frepo.test%2Fos/x86_64/APKINDEX",
             T "/t/cache/https%3A%2F%2Frepo.test%2Fos/x86_64/APKINDEX/123.tmp",
             T "/t/cache/https%3A%2F%2Frepo.test%2Fos/x86_64/APKINDEX/FYXC6LROF54A====.tar.gz"] := by decide
+
+
+/-! ## key files: `InitKeyring`, `fetchChainguardKeys`, `fetchAlpineKeys` -/
+
+/-- **keyfile_basename** (`InitKeyring`, for EVERY key file string): the file is `etc/apk/keys/<Base(element)>`
+when the base name is a component `Clean` keeps; otherwise (`Base` = `/`, `.` or `..`) the name is the keys
+directory itself or `etc/apk` — directories `InitKeyring` has just created, so `WriteFile` fails; no input
+leaves `etc/apk` -/
+theorem keyfile_basename (element : Text) :
+    parts (keyringFile element) = [T "etc", T "apk", T "keys", base element]
+    ∨ ((base element = slash ∨ base element = dot) ∧ keyringFile element = T "etc/apk/keys")
+    ∨ (base element = dotdot ∧ keyringFile element = T "etc/apk") := by
+  rcases keyringFile_cases element with ⟨hn, hs, h⟩ | h | h
+  · left
+    have := keysDir_join_parts ⟨hn, hs⟩
+    rw [keysDir_join_normal ⟨hn, hs⟩] at this
+    rw [h]; exact this
+  · exact Or.inr (Or.inl h)
+  · exact Or.inr (Or.inr h)
+
+/-- Full statement (**false** on the code): the keys discovered for a repository — `fetchAlpineKeys` (URL from
+`releases.json`, base name `PathUnescape`d *after* `Base`) and `fetchChainguardKeys` (`kid` from the JWKS) — are
+written inside `etc/apk/keys` -/
+def keyfile_within_keys_dir : Prop :=
+  (∀ u name, alpineKeyFile u = some name → parts keysDir <+: parts name)
+  ∧ (∀ kid, parts keysDir <+: parts (chainguardKeyFile kid))
+
+/-- the witnesses: `%2F` in the base name of an Alpine key URL / a `/` in a JWKS key id place the "key" anywhere
+in the image (`etc/passwd`); with one more `..` the name leaves the image root (and is then rejected by the
+repaired `dirFS`: `keyfile_host_confined`) -/
+theorem keyfile_escapes_keys_dir :
+    alpineKeyFile (T "https://alpinelinux.org/keys/..%2F..%2F..%2Fetc%2Fpasswd") = some (T "etc/passwd")
+    ∧ alpineKeyFile (T "https://alpinelinux.org/keys/..%2F..%2F..%2F..%2Fcanary") = some (T "../canary")
+    ∧ chainguardKeyFile (T "../../../usr/bin/x") = T "usr/bin/x.rsa.pub"
+    ∧ chainguardKeyFile (T "../../../../canary/pwn") = T "../canary/pwn.rsa.pub" := by decide
+
+theorem not_keyfile_within_keys_dir : ¬ keyfile_within_keys_dir := by
+  intro h
+  have := h.1 _ _ keyfile_escapes_keys_dir.1
+  revert this
+  decide
+
+/-- what does hold: a base name that is (after unescaping) one kept component without separator / a key id
+without separator is written directly inside `etc/apk/keys` -/
+theorem keyfile_within_keys_dir_partial :
+    (∀ u b, pathUnescape (base u) = some b → Normal b → '/' ∉ b →
+        alpineKeyFile u = some (T "etc/apk/keys" ++ '/' :: b)
+        ∧ parts (T "etc/apk/keys" ++ '/' :: b) = [T "etc", T "apk", T "keys", b])
+    ∧ (∀ kid, '/' ∉ kid → parts (chainguardKeyFile kid) = [T "etc", T "apk", T "keys", kid ++ T ".rsa.pub"]) := by
+  refine ⟨?_, ?_⟩
+  · intro u b hu hn hs
+    have hj := keysDir_join_normal ⟨hn, hs⟩
+    have hp := keysDir_join_parts ⟨hn, hs⟩
+    rw [hj] at hp
+    refine ⟨?_, hp⟩
+    unfold alpineKeyFile
+    rw [hu]
+    exact congrArg some hj
+  · intro kid hk
+    exact keysDir_join_parts (chainguard_name_normal hk)
+
+example : alpineKeyFile (T "https://alpinelinux.org/keys/alpine-devel%40lists.alpinelinux.org-4a6a0840.rsa.pub")
+    = some (T "etc/apk/keys/alpine-devel@lists.alpinelinux.org-4a6a0840.rsa.pub") := by decide
+
+/-- **the repaired `dirFS` alone confines all three key routes to the image root**: whatever the key file
+string, the key URL of `releases.json` or the JWKS key id is, the calls the code makes (`WriteFile`,
+`OpenFile(O_CREATE|O_WRONLY)`) hand only paths inside the root to `os.*` (instance of `dirfs_lexical`) -/
+theorem keyfile_host_confined (base : Text) (hb : isAbs base = true) (c : Call) (now : Int) (st : DState) :
+    (∀ element, ∀ p ∈ (dirStep base .writeFile { c with name := keyringFile element } now st).2.2, Within base p)
+    ∧ (∀ kid, ∀ p ∈ (dirStep base .writeFile { c with name := chainguardKeyFile kid } now st).2.2, Within base p)
+    ∧ (∀ u name, alpineKeyFile u = some name →
+        ∀ p ∈ (dirStep base .openFileCreate { c with name := name } now st).2.2, Within base p) :=
+  ⟨fun _ => dirfs_lexical base hb _ _ now st, fun _ => dirfs_lexical base hb _ _ now st,
+   fun _ _ _ => dirfs_lexical base hb _ _ now st⟩
+
+/-- … and a name that left the image root never reaches the disk -/
+theorem keyfile_dotdot_tainted :
+    (dirStep baseT .openFileCreate { name := T "../canary", flag := 0o101, perm := 0o644 } 0 { host := canaryHost }).2
+      = (.tainted, []) := by decide
 
 /-! ## ties -/
 
